@@ -6,7 +6,7 @@
 (* real code.                                                                *)
 EXTENDS Gen, ApiOps
 
-CONSTANTS Alpha, MaxLen, Repl2, EmitMode
+CONSTANTS Alpha, MaxLen, Repl2, EmitMode, Variants
 
 (* ---- profile building blocks (selected by the .cfg files via <-) ------------- *)
 Chr(c) == [k |-> "chr", c |-> c]
@@ -50,6 +50,20 @@ LvCaseL1 == {Chr(233), Chr(201), Chr(53), Cls(FALSE, <<IR(224, 233)>>), Cls(TRUE
 LvCaseGr == {Chr(955), Chr(923), Chr(1073), Chr(1041), Chr(45), Cls(FALSE, <<IR(945, 955)>>)}
 LvCaseDs == {Chr(66600), Chr(66560), Chr(97), Cls(FALSE, <<IR(66600, 66602)>>), Cls(TRUE, <<IC(66560)>>)}
 
+LvAstral == {Chr(66560), Chr(769), Chr(97), Dot, Cls(FALSE, <<IC(66560), IC(97)>>)}
+LvLoop == {Chr(97), Chr(98), BolL, EolL, Bref(1)}
+FlagsM == {NoFlags, Fl(FALSE, TRUE, FALSE)}
+QOptOnly == {QOpt}
+LvWs == {Chr(97), Cls(FALSE, <<IC(97), IC(32)>>), Chr(91), Chr(93), Chr(92), Bare(IE("d")),
+         Bare([t |-> "p", neg |-> FALSE, name |-> "Lu"]), Cls(TRUE, <<IC(9), IR(97, 98)>>)}
+LvDial == {Chr(97), BolL, EolL, Chr(36), Chr(94), Bref(1), Dot, Cls(FALSE, <<IC(97), IC(94)>>)}
+LvBrefI == {Chr(97), Chr(65), Chr(98), Bref(1)}
+Grp0(r) == [k |-> "grp", n |-> 0, r |-> r]
+OptG(c) == [k |-> "rep", r |-> Grp0(Chr(c)), min |-> 0, max |-> 1, lazy |-> FALSE, q |-> "s"]
+GSeq(n) == [k |-> "seq", xs |-> [j \in 1..n |-> IF j = 1 THEN Grp0(Chr(97)) ELSE OptG(IF j % 2 = 0 THEN 98 ELSE 97)]]
+LvG12 == {GSeq(9), GSeq(10), GSeq(12)}                    \* (a)(b)?(a)?(b)? ... with 9, 10 and 12 groups
+ReplG12 == <<36,49,124,36,50,124,36,49,48,124,36,49,49,124,36,49,50,124,36,49,51,124,36,51>>   \* $1|$2|$10|$11|$12|$13|$3
+
 (* ---- inputs -------------------------------------------------------------------- *)
 Inputs == UNION {[1..n -> Alpha] : n \in 0..MaxLen}
 InputSeq == SetToSeq(Inputs)
@@ -88,9 +102,13 @@ T5_Partition == Done => LET P == ProgOf IN P.nullable \/ T5On(P)
 T7_Nullable == Done => LET P == ProgOf IN
    P.nullable \/ \A s \in Inputs : \A i \in 1..Len(s)+1 : i \notin EndsAt(P.ast, P.ng, s, i, P.F)
 
-(* ---- the behaviour printed for replay ------------------------------------------------ *)
+(* ---- the behaviours printed for replay -------------------------------------------------- *)
+(* Every behaviour is computed from a SOURCE <<pattern text, flag text, dialect>> by the spec's own   *)
+(* Compile: the generator only proposes sources (the rendered AST, the same text under the XSD        *)
+(* dialect, with white space inserted under flag x, ...).                                             *)
 FlagCps(F) == (IF F.i THEN <<105>> ELSE <<>>) \o (IF F.m THEN <<109>> ELSE <<>>) \o (IF F.s THEN <<115>> ELSE <<>>)
 ReplSpan == <<91, 36, 48, 93>>                                                    \* "[$0]"
+ReplGroups == <<36, 49, 124, 36, 50, 124, 36, 51, 124>>                            \* "$1|$2|$3|"
 CaseOf(P, s) ==
   IF InputUnspec(P, s) THEN [s |-> s, u |-> TRUE]
   ELSE IF SpanUnspec(P, s) \/ P.nullable
@@ -101,8 +119,50 @@ CaseOf(P, s) ==
         tok |-> OpTokens(P, s), ana |-> OpAnalyze(P, s),
         capdef |-> ~P.iterambig,
         treedef |-> ~P.iterambig /\ \A j \in 1..Len(ms) : TreeDefinite(P, ms[j])]
-BehOf(P) == [pat |-> Render(P.ast), flags |-> FlagCps(P.F), x |-> TRUE, ng |-> P.ng, nullable |-> P.nullable,
-        strict |-> P.strict, langu |-> LangUnspec(P), repl2 |-> Repl2,
-        cases |-> IF LangUnspec(P) THEN <<>> ELSE [k \in 1..Len(InputSeq) |-> CaseOf(P, InputSeq[k])]]
-Emit == Done => (EmitMode = "none" \/ PrintT(<<"B", ToJson(BehOf(ProgOf))>>))
+BehOfSrc(src) ==                               \* src = <<pat, flags, X>>; <<>> when the spec has no opinion
+  LET c == Compile(src[1], src[2], src[3]) IN
+  IF c.k = "uns" THEN <<>>
+  ELSE IF c.k = "err" THEN
+       IF Cardinality(c.e) # 1 THEN <<>>
+       ELSE [pat |-> src[1], flags |-> src[2], x |-> src[3], comp |-> CHOOSE e \in c.e : TRUE, cases |-> <<>>]
+  ELSE LET P == c.prog IN
+       IF LangUnspec(P) THEN <<>>
+       ELSE [pat |-> src[1], flags |-> src[2], x |-> src[3], comp |-> "ok", ng |-> P.ng, nullable |-> P.nullable,
+             strict |-> P.strict, repl2 |-> Repl2,
+             cases |-> [k \in 1..Len(InputSeq) |-> CaseOf(P, InputSeq[k])]]
+PrintSrc(src) == LET b == BehOfSrc(src) IN IF b = <<>> THEN TRUE ELSE PrintT(<<"B", ToJson(b)>>)
+
+(* white-space variants for flag x (C14): one character inserted at every position *)
+WsChars == {9, 10, 13, 32, 12, 11, 160}           \* the four that flag x removes, and three that it must not
+InsAt(p, k, c) == SubSeq(p, 1, k) \o <<c>> \o SubSeq(p, k + 1, Len(p))
+WsSources(pat, F) == {<<InsAt(pat, k, c), FlagCps(F) \o <<120>>, TRUE>> : k \in 0..Len(pat), c \in WsChars}
+
+Sources(a, F) ==
+  LET pat == Render(a) IN
+  (IF "base" \in Variants THEN {<<pat, FlagCps(F), TRUE>>} ELSE {})
+  \cup (IF "xsd" \in Variants THEN {<<pat, FlagCps(F), FALSE>>} ELSE {})
+  \cup (IF "ws" \in Variants THEN WsSources(pat, F) ELSE {})
+Emit == Done => (EmitMode = "none" \/ \A src \in Sources(Ast, fl) : PrintSrc(src))
+
+(* T11 (C14): under flag x, white space inserted outside class expressions changes nothing; inside a class    *)
+(* expression it is kept.  Stated on the parser: Parse(Strip(p')) = Parse(p) whenever the insertion point is *)
+(* outside every class expression.                                                                           *)
+RECURSIVE DepthAt(_, _, _, _, _)
+DepthAt(p, i, k, depth, esc) ==                 \* class nesting depth just after the first k characters of p
+  IF i > k THEN depth
+  ELSE LET c == p[i] IN
+    IF esc THEN DepthAt(p, i + 1, k, depth, FALSE)
+    ELSE IF c = 92 THEN DepthAt(p, i + 1, k, depth, TRUE)
+    ELSE IF c = 91 THEN DepthAt(p, i + 1, k, depth + 1, FALSE)
+    ELSE IF c = 93 /\ depth > 0 THEN DepthAt(p, i + 1, k, depth - 1, FALSE)
+    ELSE DepthAt(p, i + 1, k, depth, FALSE)
+T11_XStrip == Done => LET pat == Render(Ast) IN
+  \A k \in 0..Len(pat) : \A c \in Ws4 :
+     DepthAt(pat, 1, k, 0, FALSE) = 0 => Parse(Strip(InsAt(pat, k, c)), TRUE) = Parse(pat, TRUE)
+(* T13 (C17): the XSD dialect accepts a subset, and on it yields the same AST unless ^ or $ occur *)
+RECURSIVE HasAnchorChar(_)
+HasAnchorChar(p) == \E k \in 1..Len(p) : p[k] \in {94, 36}
+T13_Dialect == Done => LET pat == Render(Ast)  x == Parse(pat, TRUE)  d == Parse(pat, FALSE) IN
+  /\ d.v = "ok" => x.v = "ok"
+  /\ (d.v = "ok" /\ ~HasAnchorChar(pat)) => d = x
 =============================================================================
